@@ -24,6 +24,8 @@ SCENARIOS = {
     5: "origin RST mid-transfer",
     6: "client close() while origin data is in flight to a paused reader",
     7: "client FIN at offset 0 right after the handshake, origin answers and closes",
+    8: "client sends megabytes then FIN while the origin starts reading late with a small buffer (back-pressure before the FIN)",
+    9: "origin sends megabytes then FIN while the client starts reading late with a small buffer (back-pressure before the FIN)",
 }
 
 
@@ -64,7 +66,12 @@ class C04Origins:
                             return True
                         into.extend(b)
                     return False
-                if scen in (1, 7):
+                if scen == 8:
+                    w.get_extra_info("socket").setsockopt(socket.SOL_SOCKET, socket.SO_RCVBUF, 65536)
+                    w.transport.pause_reading()
+                    await asyncio.sleep(0.6)
+                    w.transport.resume_reading()
+                if scen in (1, 7, 8):
                     w.write(s2c)
                     await w.drain()
                     await read_until_eof(rec["c2s"])
@@ -72,7 +79,7 @@ class C04Origins:
                     w.write(post)
                     await w.drain()
                     rec["events"].append("post-sent")
-                elif scen == 2:
+                elif scen in (2, 9):
                     w.write(s2c)
                     await w.drain()
                     w.write_eof()
@@ -134,7 +141,7 @@ async def scenario(out, chain, origins, seed, uid, lk, ck, scen, io_name, n_c2s,
     want_s2c = keystream(seed, uid, "s2c", m_s2c)
     want_post = keystream(seed, uid, "post-s2c", P_AFTER)
     try:
-        conn, ok, detail = await chain.open_tunnel(lk, ck, "ipv4")
+        conn, ok, detail = await chain.open_tunnel(lk, ck, "ipv4", rcvbuf=65536 if scen == 9 else None)
     except Exception as e:
         out.inconclusive += 1
         return None
@@ -174,7 +181,7 @@ async def scenario(out, chain, origins, seed, uid, lk, ck, scen, io_name, n_c2s,
             await asyncio.sleep(0.01)
         return None
     try:
-        if scen in (1, 7):
+        if scen in (1, 7, 8):
             conn.write(c2s)
             await conn.drain()
             t_fin = now()
@@ -204,9 +211,14 @@ async def scenario(out, chain, origins, seed, uid, lk, ck, scen, io_name, n_c2s,
                               {"who": who, "client_received": len(got), "expected": len(want_s2c) + P_AFTER, "end": end})
             if rec["eof_t"] is not None and end != "eof":
                 out.violation("client does not observe end-of-stream after both directions ended [%s]" % io_name, {"who": who, "end": end})
-        elif scen == 2:
+        elif scen in (2, 9):
+            if scen == 9:
+                conn.w.transport.pause_reading()
             conn.write(c2s)
             await conn.drain()
+            if scen == 9:
+                await asyncio.sleep(0.6)
+                conn.w.transport.resume_reading()
             # expect all M bytes then EOF while our direction is still open
             end = await read_to_eof()
             rec = await origin_rec()
@@ -322,17 +334,31 @@ async def check_history(out, chain, io_name, expected):
     except Exception as e:
         out.inconclusive += 1
         return
-    by_port = {}
+    # a source port identifies a tunnel only together with the listener it went to (and even then a port can be used again
+    # later): records are keyed by (listener family, port) and an ambiguous key is not judged
+    def fam_of_record(h):
+        n = h.get("listener", "")
+        return "rev" if n.startswith("rev") else n
+    fam_of_kind = {"socks5": "socks", "socks4": "socks", "socks4a": "socks", "socks5auth": "socksauth", "reverse": "rev"}
+    by_key = {}
     for h in hist:
-        by_port[int(h["source"].rsplit(":", 1)[1])] = h
-    live_ports = {int(h["source"].rsplit(":", 1)[1]) for h in live}
+        by_key.setdefault((fam_of_record(h), int(h["source"].rsplit(":", 1)[1])), []).append(h)
+    live_keys = {(fam_of_record(h), int(h["source"].rsplit(":", 1)[1])) for h in live}
+    n_expected = {}
+    for port, scen, lk in expected:
+        k = (fam_of_kind.get(lk, lk), port)
+        n_expected[k] = n_expected.get(k, 0) + 1
     for port, scen, lk in expected:
         if lk == "quic":
             continue  # A sees proxy C as the source
-        if port in live_ports:
+        key = (fam_of_kind.get(lk, lk), port)
+        if n_expected[key] > 1 or len(by_key.get(key, [])) > 1:
+            out.count("history_records_ambiguous")
+            continue
+        if key in live_keys:
             out.violation("tunnel still listed as live after both sides ended / aborted [%s]" % io_name, {"scenario": SCENARIOS[scen], "listener": lk})
             continue
-        h = by_port.get(port)
+        h = (by_key.get(key) or [None])[0]
         if h is None:
             continue  # history is bounded; absence is C16's business
         states = [s["state"] for s in h["state"]]
@@ -342,13 +368,15 @@ async def check_history(out, chain, io_name, expected):
             if "ClientShutdown" not in states or "ServerShutdown" not in states:
                 out.violation("cleanly finished tunnel lacks the per-direction shutdown states [%s]" % io_name, {"states": states, "scenario": SCENARIOS[scen]})
             else:
-                first = "ClientShutdown" if scen in (1, 7) else "ServerShutdown" if scen == 2 else None
+                first = "ClientShutdown" if scen in (1, 7, 8) else "ServerShutdown" if scen in (2, 9) else None
                 if first and states.index(first) > states.index("ServerShutdown" if first == "ClientShutdown" else "ClientShutdown"):
                     out.violation("shutdown states recorded in the wrong order [%s]" % io_name, {"states": states, "scenario": SCENARIOS[scen]})
         out.count("history_records_checked")
 
 
 async def main(args):
+    from . import lib as _lib
+    _lib.UNIQUE_SRC = True   # records are joined with connections by source port
     out = Out("C04", "c04", "scenario grid: first closer {client, origin, both} x kind {FIN, close, RST} x offsets/in-flight data x listener x connector, run against a splice and a buffered proxy; EOF-after-all-bytes, opposite-direction-continues, both-closed, history states; logical observations compared between the two I/O modes. distinct = distinct (listener, connector, io mode, scenario, payload class)")
     rng = random.Random(args.seed)
     modes = [("splice", {"bufferSize": 65536, "useSplice": True}), ("buffered", {"bufferSize": 65536, "useSplice": False})]
@@ -365,15 +393,19 @@ async def main(args):
     plan = []
     uid = args.seed * 1_000_000
     for lk, ck in pairs:
-        scens = [1, 2, 3, 4, 5, 6, 7] if args.thorough else rng.sample([1, 2, 3, 4, 5, 6, 7], 3)
+        scens = [1, 2, 3, 4, 5, 6, 7, 8, 9] if args.thorough else rng.sample([1, 2, 3, 4, 5, 6, 7, 8, 9], 4)
         for sc in scens:
-            if lk in TLS_LISTENERS and sc in (1, 3, 7):
+            if lk in TLS_LISTENERS and sc in (1, 3, 7, 8):
                 continue  # the python TLS client can not half-close
             uid += 1
             n = rng.choice([HLEN, HLEN + 1, 5000, 200_000])
             m = rng.choice([0, 1, 5000, 200_000]) if sc != 6 else 4 << 20
             if sc == 7:
                 n = HLEN
+            if sc == 8:
+                n, m = 6 << 20, rng.choice([0, 5000])
+            if sc == 9:
+                n, m = rng.choice([HLEN, 5000]), 6 << 20
             plan.append((uid, lk, ck, sc, n, m))
     results = {}
     for io_name, io in modes:
